@@ -435,6 +435,17 @@ func runC08(tier string, seed uint64) int {
 	}
 
 	nodeTimeout = 15 * time.Minute
+	// every case is also confirmed at the process level: the separately linked binary, seeded through
+	// VERIFMAPSEED, runs one list and one diff command under the baseline and under two variants
+	for ci, c := range cases {
+		r := sub(seed, "C08", "cli", c.name)
+		lf := pick(r, []string{"txt", "json", "csv", "md", "dot"})
+		l := []string{"list", "--dirpath", "a", "-o", lf, "-q"}
+		if !c.hasAdmin && r.chance(1, 2) {
+			l = append(l, "--exposure")
+		}
+		cases[ci].evalQ = append(cases[ci].evalQ, l, []string{"diff", "--dir1", "a", "--dir2", "b", "-o", pick(r, []string{"txt", "csv", "md", "dot"}), "-q"})
+	}
 	st := &c08Stats{nontrivial: map[string]bool{}, peerOrders: map[string]bool{}, byKind: map[string]int{}, byFmt: map[string]int{}}
 	type caseOut struct {
 		mm      *c08Mismatch
@@ -512,7 +523,11 @@ func runC08(tier string, seed uint64) int {
 		// eval through the CLI entry point (its directory loader inserts objects in document order)
 		if len(c.evalQ) > 0 && o.mm == nil {
 			var baseOut []string
-			for k := 0; k <= K && o.mm == nil; k += 2 {
+			kMax := K
+			if !c.relayout || len(c.evalQ) <= 2 {
+				kMax = 4 // list/diff only: baseline and two variants
+			}
+			for k := 0; k <= kMax && o.mm == nil; k += 2 {
 				rv := sub(seed, "C08", "variants", c.name)
 				var v *c08Variant
 				for kk := 0; kk <= k; kk++ {
@@ -523,7 +538,7 @@ func runC08(tier string, seed uint64) int {
 				}
 				for qi, q := range c.evalQ {
 					run := c.run(v, nil, false)
-					run.Job, run.CLI, run.Seed = nil, q, v.seed
+					run.Job, run.CLI, run.Seed, run.RealEx = nil, q, v.seed, true
 					res := execute(&run)
 					o.execs++
 					if res.Infra != "" {
@@ -726,7 +741,7 @@ func c08Minimise(mm *c08Mismatch, seed uint64) *Replay {
 				}
 			}
 			if mm.cli != nil {
-				return Run{FS: fs, CLI: mm.cli, Seed: s}
+				return Run{FS: fs, CLI: mm.cli, Seed: s, RealEx: true}
 			}
 			return Run{FS: fs, Job: &job.Job{ID: c.name + "/" + v.kind, MapSeed: s, Steps: steps, KeepOut: true}}
 		}
